@@ -1030,6 +1030,31 @@ func kindOfSort(s string) string {
 
 // lookupLocal finds the SSA value that holds source variable `name` at the head of block b.
 func (f *frame) lookupLocal(name string, b *ssa.BasicBlock, phiOverride map[*ssa.Phi]string, st *hstate) (specVal, bool) {
+	// 0. a name bound by the contract to the result of a call (bind name = callee): independent of local names
+	if ct := f.contract; ct != nil && f.top && ct.Binds[name] != "" {
+		want := ct.Binds[name]
+		for d := b; d != nil; d = d.Idom() {
+			for i := len(d.Instrs) - 1; i >= 0; i-- {
+				c, ok := d.Instrs[i].(*ssa.Call)
+				if !ok {
+					continue
+				}
+				cn := ""
+				if c.Call.IsInvoke() {
+					cn = c.Call.Method.Name()
+				} else if sc := c.Call.StaticCallee(); sc != nil {
+					cn = sc.Name()
+				}
+				if cn != want {
+					continue
+				}
+				if v, ok := f.vals[c]; ok && v.t != "" {
+					return specVal{term: v.t, typ: c.Type()}, true
+				}
+			}
+		}
+		return specVal{}, false
+	}
 	// 1. phis at b with that comment
 	for _, ins := range b.Instrs {
 		phi, ok := ins.(*ssa.Phi)
